@@ -3,11 +3,23 @@ open XsVerif.Props.C06
 #print axioms lazy_nsmaps_eq_inScope
 #print axioms eager_nsmaps_eq_lazy
 #print axioms eager_nsmaps_eq_inScope
+#print axioms iter_lazy_order_pinned
+#print axioms iter_lazy_perm_pinned
+#print axioms iter_lazy_order_pinned_counterexample
 #print axioms iter_lazy_order
-#print axioms iter_lazy_perm
+#print axioms iter_lazy_doc
 #print axioms iter_depth_spec
 #print axioms iterfind_spec
+#print axioms live_nonthin_yields
+#print axioms live_final_nonthin
+#print axioms live_thin_yields
+#print axioms live_chunks_complete
+#print axioms thin_position_partial
+#print axioms thin_position_counterexample
 #print axioms depth_cut_prefix
+#print axioms lazy_errors_split
+#print axioms local_imp_localErr
+#print axioms lazy_errors_law_weak
 #print axioms lazy_errors_law
 #print axioms lazy_errors_perm
 #print axioms lazy_order_counterexample
